@@ -27,7 +27,8 @@ pub mod tokio {
 /// Data-structure invariant (assumed, listed): every entry in the table satisfies the
 /// representation invariant ps_inv with its ghost view -- entries are only created by
 /// PaymentState::new and only changed by add_htlc / fail / resolve, which preserve it (unit paystate).
-pub struct Entry<'a> { pub _p: core::marker::PhantomData<&'a mut PaymentState> }
+// `id`: ghost identity (a struct of PhantomData only would be single-valued: any two values provably equal)
+pub struct Entry<'a> { pub _p: core::marker::PhantomData<&'a mut PaymentState>, pub id: Ghost<int> }
 impl MutexGuard<HashMap<Hash, PaymentState>> {
     #[verifier::external_body]
     fn entry<'a>(&'a mut self, k: Hash) -> (r: Entry<'a>) { unimplemented!() }
